@@ -14,6 +14,8 @@ func compileClass(vm *r.VM, classID *r.IDName, classNode *syntax.ClassDeclareStm
 	// init prop list and its default value
 	for _, propPair := range classNode.PropertyList {
 		propID := propPair.PropertyID.GetLiteral()
+		// a fault in the initial value arises on the line of that property
+		vm.SetCurrentLine(propPair.GetCurrentLine())
 		element, err := evalExpression(vm, propPair.InitValue)
 		if err != nil {
 			return nil, err
